@@ -148,12 +148,15 @@ func runC16(t *T) {
 	k := c.Draw(c16Count)
 	counts := []int{3, 0, 1, 2, 5, 8, 17, 40, 70, 130} // beyond any internal batch size
 	n := counts[c.Draw(len(counts))]
+	if c.Chance(1, 40) {
+		n = 1500 // beyond a batch size of a thousand or so
+	}
 	if k == c16OS && c.Chance(1, 6) {
 		n = 400 // beyond the kernel's getdents batch
 	}
 	children := make([]c16Child, n)
 	for i := range children {
-		children[i] = c16Child{name: fmt.Sprintf("c%03d", (i*7+3)%1000), isDir: c.Chance(1, 3), size: c.Draw(4) * 3}
+		children[i] = c16Child{name: fmt.Sprintf("c%04d", (i*7+3)%10007), isDir: c.Chance(1, 3), size: c.Draw(4) * 3}
 	}
 	fs, dir, mounts, cleanup := c16Build(t, k, children)
 	defer cleanup()
@@ -183,6 +186,16 @@ func runC16(t *T) {
 		t.Fail("listing", fam+":readdir-fails", fmt.Sprintf("ReadDir(%q) with %d children failed: %v", dir, len(want), err))
 	}
 	c16CheckEntries(t, fs, dir, ents, want, want, mounts, fam+":byname", true)
+	c16Scribble(ents)
+	if c.Chance(1, 3) {
+		// a result belongs to the caller (who may sort, filter or overwrite it in place): the next listing is unaffected
+		ents2, err2 := hackpadfs.ReadDir(fs, dir)
+		if err2 != nil {
+			t.Fail("listing", fam+":readdir-fails", fmt.Sprintf("second ReadDir(%q) failed: %v", dir, err2))
+		}
+		c16CheckEntries(t, fs, dir, ents2, want, want, mounts, fam+":byname-again", true)
+		c16Scribble(ents2)
+	}
 
 	// paged reads of a fresh handle
 	rounds := 1 + c.Draw(2)
@@ -261,6 +274,7 @@ func runC16(t *T) {
 			t.Logf("round %d ReadDir(%d) -> %d entries, %s", r, size, len(page), errClass(err))
 			remainingBefore := total - len(all)
 			all = append(all, page...)
+			c16Scribble(page)
 			sig := fam + ":page"
 			if plan != nil && plan.fired > 0 {
 				t.Stat("c16:page-read-hit-by-fault")
@@ -334,6 +348,13 @@ func runC16(t *T) {
 	}
 	if len(want) > 0 {
 		t.NonTrivial()
+	}
+}
+
+// c16Scribble overwrites a result slice the way a caller may (the copies the harness keeps are made before).
+func c16Scribble(ents []hackpadfs.DirEntry) {
+	for i := range ents {
+		ents[i] = ents[len(ents)-1]
 	}
 }
 
